@@ -15,6 +15,7 @@ func init() { register("C17", checkC17) }
 
 func checkC17(c *Ctx) {
 	p := mustLoad(c, K1)
+	indexLints(c, p, "ecc/*/fr/pedersen", "ecc/*/shplonk", "ecc/*/fflonk", "ecc/*/fr/permutation", "ecc/*/fr/plookup", "ecc/*/fr/fri", "ecc/*/mpcsetup", "field/koalabear/vortex")
 	c.Rule("C17.guard", "GUARD (one table per verifier, written from the definition of the scheme): every accepting return of the verifier is dominated by each check of the scheme — subgroup membership of commitments and proofs of knowledge, length agreements, successful derivation of every Fiat-Shamir challenge, the pairing / Merkle / equality checks with arguments derived from the inputs named by the scheme", 60)
 	c.Rule("C17.bind", "BINDING (L16): each challenge derivation binds every datum the scheme lists (points, digests, claimed values, extra data) with the Bind error tested, before ComputeChallenge", 14)
 	c.Rule("C17.arms", "ARM-AGREEMENT: in verifiers that classify heterogeneous inputs with two type switches (count, then collect), every type that is collected into a list increments the same counter, and different lists use different counters (the counter gates the check on the list)", 7)
